@@ -743,6 +743,9 @@ class BuilderSim:
         self.max_row_width = ch.draw(4, "max-row")
         self.fresh_handles = self.features.get("fresh_handles", True) and ch.coin(1, 4, "f-fresh-handles")
         self.respell_wires = self.features.get("respell_wires", True) and ch.coin(1, 3, "f-respell-wires")
+        # an observer: a read-only client that serialises / lists the HUGR between steps of the builders (the document is
+        # thrown away; an unfinished container makes the serialiser raise, which the observer ignores)
+        self.observer = self.features.get("observer", True) and ch.coin(1, 3, "f-observer")
         # size class (swarm): some programs are several times longer, nest deeper and use wide rows
         self.large = bool(self.features.get("large", root_inputs is None and ch.coin(1, 25, "size-class-large")))
         if self.large:
@@ -991,9 +994,27 @@ class BuilderSim:
                 a.step()
             # a cheap abstract state of the world, for the evidence's "distinct states" measure
             ctx.states.append(f"{len(self.hugr)}:{sum(1 for x in self.actors if not getattr(x, 'closed', False))}:{a.id}")
+            if self.observer and ch.coin(1, 5, "observe"):
+                self.observe()
             if self.after_step is not None:
                 self.after_step(self)
         return True
+
+    def observe(self):
+        """Read-only queries in the middle of the history: whatever they compute (or memoise) must not change what the
+        builders do next or what is serialised at the end."""
+        h = self.hugr
+        try:
+            h.to_json()
+            out = "document"
+        except Exception as e:  # noqa: BLE001  (IncompleteOp and friends while builders are open)
+            out = type(e).__name__
+        try:
+            n = sum(1 for _ in h.links()) + sum(len(h.children(x)) for x in h.nodes())
+        except Exception as e:  # noqa: BLE001
+            n = type(e).__name__
+        self.ctx.ev("observer", "to_json/links/children", None, f"{out}:{n}")
+        self.ctx.probe("observer_serialised_mid_history" if out == "document" else "observer_serialise_refused")
 
     after_step = None
     fault_hook = None
